@@ -1731,6 +1731,21 @@ class Interp:
             itv = self.eval(n.generators[0].iter, local)
             if isinstance(itv, SymRange) and itv.concrete() is None:
                 return LazyList(self, n.elt, n.generators[0].target.id, itv, env)
+            if isinstance(itv, SeqList) and not itv.tail:
+                var = n.generators[0].target.id
+                interp, elt = self, n.elt
+                # python builds the list now: freeze the variables the element expression reads
+                snap = {}
+                for nd in ast.walk(elt):
+                    if isinstance(nd, ast.Name) and nd.id != var and nd.id not in snap and local.has(nd.id):
+                        try:
+                            snap[nd.id] = local.lookup(nd.id)
+                        except Exception:
+                            pass
+
+                def item(k, itv=itv, snap=snap):
+                    return interp.eval(elt, Env(dict(snap, **{var: itv.at(k)}), env))
+                return SeqList(self.ctx, itv.n, item)
 
         def rec(gi):
             if gi == len(n.generators):
@@ -2062,6 +2077,26 @@ class SeqList(PyObj):
     def fingerprint_(self):
         return ('seqlist', len(self.tail)), []
 
+    def binop_(self, ctx, op, other, swapped):
+        if op == 'add' and isinstance(other, list) and not swapped:
+            return SeqList(ctx, self.n, self.item, self.tail + list(other))
+        return NotImplemented
+
+    def max_(self, ctx, largest=True):
+        """max / min of the list: a fresh value bounded by every element and equal to one of them"""
+        sample = self.tail[0] if self.tail else self.item(0)
+        m = ctx.fresh_int("max" if largest else "min") if isinstance(sample, int) or (isinstance(sample, Sym) and sample.is_int) \
+            else ctx.fresh_real("max" if largest else "min")
+        ge = (lambda a, b: a >= b) if largest else (lambda a, b: a <= b)
+        for t in self.tail:
+            ctx.assume(ge(m, t))
+        n, item = self.n, self.item
+        ctx.ufacts.append(lambda t: Implies(And(t[0] >= 0, t[0] < n), ge(m, item(t[0]))))
+        k0 = ctx.fresh_int("argmax")
+        ctx.assume(Or(And(k0 >= 0, k0 < n, m == item(k0)), *[m == t for t in self.tail]))
+        ctx.assume(Implies(And(k0 >= 0, k0 < n), ge(m, item(k0))))
+        return m
+
     def zip_(self, ctx, xs):
         if all(isinstance(x, SeqList) for x in xs):
             lens = [x.len_(ctx) for x in xs]
@@ -2336,6 +2371,8 @@ def b_abs(ctx, x):
 
 
 def _fold(ctx, f, a, kw):
+    if len(a) == 1 and isinstance(a[0], SeqList):
+        return a[0].max_(ctx, largest=(f is smax))
     if len(a) == 1:
         items = ctx.interp.iterate(a[0])
     else:
@@ -2427,7 +2464,7 @@ def b_isinstance(ctx, x, t):
             if isinstance(x, bool) or (isinstance(x, Sym) and x.is_bool):
                 res = True
         elif base == 'str':
-            if isinstance(x, (str, StrFormat)):
+            if isinstance(x, (str, StrFormat)) or (isinstance(x, PyObj) and getattr(x, 'typename', None) == 'str'):
                 res = True
         elif base in ('list',):
             if isinstance(x, list):
@@ -2612,6 +2649,7 @@ BUILTINS = {
     'dict': Model(b_dict, 'dict'), 'type': Model(b_type, 'type'), 'id': Model(b_id, 'id'),
     'map': Model(b_map, 'map'), 'reversed': Model(b_reversed, 'reversed'), 'divmod': Model(b_divmod, 'divmod'),
     'slice': Model(lambda ctx, *a: slice(*a), 'slice'),
+    'setattr': Model(lambda ctx, o, name, v: ctx.interp.setattr(o, name, v), 'setattr'),
     'True': True, 'False': False, 'None': None,
 }
 
